@@ -231,32 +231,36 @@ def check_value(group, type_expr, kind, payload, ep, r: Result):
         r.out('literal rejected')
         r.viol(f'valid base58 literal rejected: {kl}', case, f'{prim} "{s}" -> {obs["literal"]}')
         return
+    bad = []
     for label, what in (('optimized', 'optimized form'), ('legacy_optimized', 'legacy_optimized form'),
                         ('unpack', 'pack() / unpack()'), ('UNPACK', 'PACK / UNPACK instructions')):
         r.ev()
-        got = obs.get(label)
+        got = obs.get(label) or ('render-raise', 'no observation')
         if label in ('optimized', 'legacy_optimized'):
             form = obs.get(label + '_form')
-            if got is not None and got[0] != 'render-raise' and not (isinstance(form, dict) and set(form) == {'bytes'}):
+            if got[0] != 'render-raise' and not (isinstance(form, dict) and set(form) == {'bytes'}):
                 r.viol(f'{what} of {kl} is not a bytes literal', case, f'{prim} "{s}" -> {form}')
         if got[0] != 'ok':
             r.out(f'{label}|{got[0]}')
             how = 'cannot be rendered' if got[0] == 'render-raise' else 'cannot be read back'
-            r.viol(f'{what} of {kl} {how}', case, f'{prim} "{s}" ({refb.hex()}): {got[1]}')
+            bad.append((what, how, f'{prim} "{s}" ({refb.hex()}): {got[1]}'))
             continue
         back = parse(got[1])
         if same(prim, back, want):
             r.out(f'{label}|same value')
-            continue
-        if back is None:
+        elif back is None:
             r.out(f'{label}|unreadable answer')
-            r.viol(f'{what} of {kl} reads back as something that is not a {prim}', case, f'{prim} "{s}" -> {got[1]!r}')
+            bad.append((what, f'reads back as something that is not a {prim}', f'{prim} "{s}" -> {got[1]!r}'))
         elif back[0] != kind and prim != 'signature':
             r.out(f'{label}|other kind')
-            r.viol(f'{what} of {kl} is read back as another kind', case, f'{prim} "{s}" ({refb.hex()}) -> "{got[1]}" ({back[0]})')
+            bad.append((what, 'is read back as another kind', f'{prim} "{s}" ({refb.hex()}) -> "{got[1]}" ({back[0]})'))
         else:
             r.out(f'{label}|other value')
-            r.viol(f'{what} of {kl} is read back as a different value', case, f'{prim} "{s}" ({refb.hex()}) -> "{got[1]}"')
+            bad.append((what, 'is read back as a different value', f'{prim} "{s}" ({refb.hex()}) -> "{got[1]}"'))
+    if len(bad) == 4 and len({b[1] for b in bad}) == 1:
+        bad = [('optimized form (both optimized modes, pack()/unpack(), PACK/UNPACK)', bad[0][1], bad[0][2])]
+    for what, how, detail in bad:
+        r.viol(f'{what} of {kl} {how}', case, detail)
     # blind_unpack
     r.ev()
     bu = obs.get('blind')
@@ -267,7 +271,8 @@ def check_value(group, type_expr, kind, payload, ep, r: Result):
         else:
             r.out('blind|another address')
             r.viol(f'blind_unpack reads the bytes of {kl} as a different address / key hash', case,
-                   f'blind_unpack({refb.hex()}) -> "{bu}", the bytes are the optimized form of {prim} "{s}"')
+                   f'blind_unpack({obs["optimized_form"]["bytes"]}) -> "{bu}", the bytes are the optimized form the implementation gives for '
+                   f'{prim} "{s}" (reference: {refb.hex()})')
     else:
         r.no_verdict += 1
         if back is not None:
